@@ -339,6 +339,21 @@ Fixpoint split_on (c : Z) (s : list Z) (cur : list Z) : list (list Z) :=
   | x :: r => if x =? c then rev cur :: split_on c r [] else split_on c r (x :: cur)
   end.
 
+(* TEMPLATE.format(args) for a template whose only fields are the plain "{}": int and str arguments (str() of them);
+   any other brace, and any other argument type, is outside the fragment *)
+Fixpoint format_go (t : list Z) (args : list val) {struct t} : R (list Z) :=
+  match t with
+  | [] => Val []
+  | 123 :: 125 :: r =>
+      match args with
+      | a :: ar =>
+          let! s := match a with VInt z => Val (str_of_int z) | VStr s => Val s | _ => Exc Unmodelled end in
+          let! rest := format_go r ar in Val (s ++ rest)
+      | [] => Exc IndexError
+      end
+  | c :: r => if (c =? 123) || (c =? 125) then Exc Unmodelled else let! rest := format_go r args in Val (c :: rest)
+  end.
+
 Definition apply_meth (m : meth) (obj : val) (args : list val) : R val :=
   match m, obj, args with
   | MLower, VStr s, [] => if ascii s then Val (VStr (map lower_c s)) else Exc Unmodelled
@@ -379,6 +394,7 @@ Definition apply_meth (m : meth) (obj : val) (args : list val) : R val :=
   | MStrip, VStr s, [] => if ascii s then Val (VStr (strip_ws s)) else Exc Unmodelled
   | MIsdigit, VStr s, [] => if ascii s then Val (VBool (plain_digits s)) else Exc Unmodelled
   | MEncodeAscii, VStr s, [] => if ascii s then Val (VBytes s) else Exc Unmodelled
+  | MFormat, VStr t, args => let! r := format_go t args in Val (VStr r)
   | _, _, _ => Exc Unmodelled
   end.
 
